@@ -707,21 +707,49 @@ func build(n *Node, e *Env) (z.ZogSchema, reflect.Type) {
 			keys = append(keys, f.Key)
 		}
 		var s *z.StructSchema
+		// Derived schemas get their LAST test / PostTransform only after the derivation ("later additions"), and
+		// afterwards siblings are derived from the same operands and given failing tests and transforms of their own,
+		// as are the operands themselves: none of that may reach the schema under test.
+		nt, np := len(n.Tests), len(n.Posts)
+		heldT, heldP := 0, 0
+		if n.Via != "" && nt > 0 && len(keys)%2 == 0 {
+			heldT = 1
+		}
+		if n.Via != "" && np > 0 && len(keys)%2 == 1 {
+			heldP = 1
+		}
+		later := func(s *z.StructSchema) {
+			addTests(s, nt-heldT, nt)
+			addPosts(s, np-heldP, np)
+		}
+		noise := func(x *z.StructSchema) {
+			x.TestFunc(func(any, z.Ctx) bool { return false }, z.IssueCode("sibling_noise"), z.IssuePath("sibling.noise"))
+			x.PostTransform(func(any, z.Ctx) error { return errors.New("sibling noise") })
+		}
 		switch n.Via {
 		case "merge":
-			// three operands: fields dealt round-robin, tests and PostTransforms too (Merge keeps and concatenates them)
+			// three operands: fields dealt round-robin; tests and PostTransforms sit on the receiver (even number of
+			// fields) or are dealt over the operands (Merge keeps and concatenates them)
 			parts := []z.Schema{{}, {}, {}}
 			for i, k := range keys {
 				parts[i%3][k] = sm[k]
 			}
 			ops := make([]*z.StructSchema, 3)
-			tc, pc := chunks(len(n.Tests)), chunks(len(n.Posts))
+			tc, pc := chunks(nt-heldT), chunks(np-heldP)
+			if len(keys)%2 == 0 {
+				tc, pc = [4]int{0, nt - heldT, nt - heldT, nt - heldT}, [4]int{0, np - heldP, np - heldP, np - heldP}
+			}
 			for j := range ops {
 				ops[j] = z.Struct(parts[j])
 				addTests(ops[j], tc[j], tc[j+1])
 				addPosts(ops[j], pc[j], pc[j+1])
 			}
 			s = ops[0].Merge(ops[1], ops[2])
+			later(s)
+			for _, op := range ops {
+				noise(op.Merge(z.Struct(z.Schema{}).TestFunc(func(any, z.Ctx) bool { return false }, z.IssueCode("sibling_noise"))))
+				noise(op)
+			}
 		case "extend":
 			half := len(keys) / 2
 			a, b := z.Schema{}, z.Schema{}
@@ -733,9 +761,12 @@ func build(n *Node, e *Env) (z.ZogSchema, reflect.Type) {
 				}
 			}
 			base := z.Struct(a)
-			addTests(base, 0, len(n.Tests))
-			addPosts(base, 0, len(n.Posts))
+			addTests(base, 0, nt-heldT)
+			addPosts(base, 0, np-heldP)
 			s = base.Extend(b)
+			later(s)
+			noise(base.Extend(z.Schema{}))
+			noise(base)
 		case "omit", "pick":
 			// a superset with two decoy fields (no destination field is needed for keys that are removed again)
 			super := z.Schema{"zzDecoy1": z.String().Required(), "zzDecoy2": z.Int().Required()}
@@ -743,8 +774,8 @@ func build(n *Node, e *Env) (z.ZogSchema, reflect.Type) {
 				super[k] = v
 			}
 			base := z.Struct(super)
-			addTests(base, 0, len(n.Tests))
-			addPosts(base, 0, len(n.Posts))
+			addTests(base, 0, nt-heldT)
+			addPosts(base, 0, np-heldP)
 			if n.Via == "omit" {
 				s = base.Omit("zzDecoy1", map[string]bool{"zzDecoy2": true})
 			} else {
@@ -754,6 +785,9 @@ func build(n *Node, e *Env) (z.ZogSchema, reflect.Type) {
 				}
 				s = base.Pick(args...)
 			}
+			later(s)
+			noise(base.Omit("zzDecoy1"))
+			noise(base)
 		default:
 			s = z.Struct(sm)
 			addTests(s, 0, len(n.Tests))
